@@ -393,6 +393,8 @@ let on_proc (idx : int) (msg : message) (obs : string) : unit =
                  | Syn (_, dg) | SynAck (dg, _) ->
                      check "C14" (c14_delta_ok dg o.snap.nodes x)
                        "a node delta of the reply does not start where the sender's reset decision says (0 iff the peer's watermark and max version are both below the sender's watermark, else the peer's max version)";
+                     check "C14" (c14_agree_ok dg o.snap.nodes x)
+                       "a receiver holding the copy its digest advertised would not take the sender's decision on a node delta of the reply (reset iff the sender decided to reset; refusal only of an empty node delta)";
                      (* the budget the reply's delta was computed under *)
                      let mtu = match r with
                        | SynAck (dgb, _) -> N.sub p_MAX_UDP (N.add p_RESERVE_SYNACK (digest_len dgb))
@@ -664,6 +666,8 @@ let on_delta ?dg (idx : int) (mtu : int) (sched : id list) (obs : string) : unit
          | Some dg ->
              check "C14" (c14_delta_ok dg s.nodes x)
                "a computed node delta does not start where the sender's reset decision says";
+             check "C14" (c14_agree_ok dg s.nodes x)
+               "a receiver holding the copy the digest advertised would not take the sender's decision on a computed node delta (reset iff the sender decided to reset; refusal only of an empty node delta)";
              check "C14" (c14_offer_ok s.nodes dg sched (n_of_int mtu) x)
                "the sender is ahead of the digest on a member it does not quarantine and there is room for that member's header and first operation, but the computed delta is empty"
          | None -> ())
